@@ -245,7 +245,7 @@ func (a Arg) Coq() string {
 }
 
 type CbStep struct {
-	mut   byte // 0 none, 'p' put, 'd' delete
+	mut   byte // 0 none, 'p' put, 'd' delete, 'a' append at length
 	k     Key
 	v     V
 	throw bool
@@ -259,6 +259,8 @@ func (c CbStep) JS() string {
 		m = fmt.Sprintf("function(){R[%s]=%s}", c.k.JS(), c.v.JS())
 	case 'd':
 		m = fmt.Sprintf("function(){delete R[%s]}", c.k.JS())
+	case 'a':
+		m = fmt.Sprintf("function(){var n=R.length>>>0;R[n]=%s;if(!ISARR)R.length=n+1}", c.v.JS())
 	}
 	return fmt.Sprintf("{m:%s,t:%s,r:%s}", m, Cbool(c.throw), c.ret.JS())
 }
@@ -269,6 +271,8 @@ func (c CbStep) Coq() string {
 		m = fmt.Sprintf("(MPut %s %s)", c.k.Coq(), c.v.Coq())
 	case 'd':
 		m = fmt.Sprintf("(MDel %s)", c.k.Coq())
+	case 'a':
+		m = fmt.Sprintf("(MAppend %s)", c.v.Coq())
 	}
 	return fmt.Sprintf("(mkCb %s %s %s)", m, Cbool(c.throw), c.ret.Coq())
 }
@@ -281,10 +285,11 @@ type Op struct {
 	m    int
 	args []Arg
 	cbs  []CbStep
+	lg   bool // the receiver's length is a counting getter
 }
 
 var methods = []string{"join", "pop", "push", "reverse", "shift", "slice", "splice", "unshift", "indexOf", "lastIndexOf",
-	"every", "some", "forEach", "map", "filter", "reduce", "reduceRight", "concat"}
+	"every", "some", "forEach", "map", "filter", "reduce", "reduceRight", "concat", "toString", "toLocaleString"}
 
 // methods whose running time does not depend on the length
 func constTime(m int) bool { return m == 1 || m == 2 }
@@ -350,6 +355,9 @@ func (o Op) Coq() string {
 	for i, c := range o.cbs {
 		cs[i] = c.Coq()
 	}
+	if o.lg {
+		return fmt.Sprintf("OCallG %d %s %s", o.m, Clist(as), Clist(cs))
+	}
 	return fmt.Sprintf("OCall %d %s %s", o.m, Clist(as), Clist(cs))
 }
 
@@ -359,6 +367,7 @@ type Recv struct {
 	length *V // array-likes: the length property (nil = none)
 	proto  map[int64]Prop
 	onAP   bool // inherited properties live on Array.prototype (else Object.prototype)
+	lenGet bool // array-like whose length is a getter that logs every read (returns *length)
 }
 
 func (r Recv) protoKeys() []int64 {
@@ -389,10 +398,13 @@ func (r Recv) JS() string {
 				f = append(f, fmt.Sprintf("\"%d\":%s", i, e.JS()))
 			}
 		}
-		if r.length != nil {
+		if r.length != nil && !r.lenGet {
 			f = append(f, "length:"+r.length.JS())
 		}
 		fmt.Fprintf(&b, "var ISARR=false, R={%s};", strings.Join(f, ","))
+		if r.lenGet {
+			fmt.Fprintf(&b, "LG=true;NLV=%s;Object.defineProperty(R,\"length\",{get:function(){LOG+=\"9;\";return NLV},enumerable:true,configurable:true});", r.length.JS())
+		}
 	}
 	return b.String()
 }
@@ -418,7 +430,7 @@ func (r Recv) Coq() string {
 
 // ---------- the script prelude (string-only helpers: inherited index properties must not disturb it) ----------
 
-const prelude = `var G=this, T={}, AP=Array.prototype, LOG="", K=0, S=[], SKIP="SKIP\n", OUT="";
+const prelude = `var G=this, T={}, AP=Array.prototype, LOG="", K=0, S=[], SKIP="SKIP\n", OUT="", LG=false, NLV;
 var HOP=Object.prototype.hasOwnProperty;
 function enc(v){
  if(v===undefined)return "u"; if(v===null)return "n"; if(v===true)return "t"; if(v===false)return "f";
@@ -437,7 +449,8 @@ function dump(o){
  var n=Object.getOwnPropertyNames(o), s=Object.isExtensible(o)?"E":"N";
  for(var i=0;i<n.length;i++){ var d=Object.getOwnPropertyDescriptor(o,n[i]); var h="";
   for(var j=0;j<n[i].length;j++){h+=n[i].charCodeAt(j)+"."}
-  s+="|"+h+":"+(HOP.call(d,"value")?enc(d.value):"ACC")+":"+(d.writable?1:0)+(d.enumerable?1:0)+(d.configurable?1:0); }
+  var vs; if(HOP.call(d,"value")){vs=enc(d.value)+":"+(d.writable?1:0)}else if(LG&&n[i]==="length"){vs=enc(NLV)+":1"}else{vs="ACC:0"}
+  s+="|"+h+":"+vs+(d.enumerable?1:0)+(d.configurable?1:0); }
  return s;
 }
 function cb(){
@@ -679,6 +692,11 @@ func runScript(src string) Outcome {
 }
 
 func (g *gen) runHist(r Recv, ops []Op, bucket string) {
+	for i := range ops {
+		if ops[i].kind == 'c' {
+			ops[i].lg = r.lenGet
+		}
+	}
 	var src strings.Builder
 	src.WriteString(prelude)
 	src.WriteString(r.JS())
